@@ -15,6 +15,7 @@ import OFV.Proofs.C05TreeLadder
 import OFV.Proofs.C05Car
 import OFV.Proofs.C05SrlAll
 import OFV.Proofs.C05Iop8
+import OFV.Proofs.C05Bksf
 
 namespace OFV.C05
 open OFV OFV.Spec OFV.Model OFV.Model.C05 OFV.Sem OFV.BK OFV.BKT
@@ -491,6 +492,89 @@ theorem tree_car (tol : Rat) (htol : tol * tol ≤ 1 / 4) (n i j : Nat) (hi : i 
   rw [den_cons, den_nil, den_cons, den_nil, add_zero, add_zero, one_mul, one_mul]
   exact spec_car i j s s'
 
+/-- the tree variant maps encoded states to encoded states only -/
+theorem tree_term_support (tol : Rat) (htol : tol * tol ≤ 1 / 4) (n : Nat) (t : List (Nat × Nat))
+    (ht : ∀ f ∈ t, f.1 < n ∧ f.2 ≤ 1) (c : GQ) (s x : Nat) (hx : ∀ s', Spec.C05.enc .tree n s' ≠ x) :
+    GV.coeff (applyOp .qubit (bkTreeTerm tol (mkTree n) n t c) [Spec.C05.enc .tree n s]) [x] = 0 := by
+  change den .qubit _ _ _ = 0
+  rw [bkTreeTerm_den tol htol n t ht]
+  cases actFTerm t s with
+  | none => rfl
+  | some km => obtain ⟨k, s''⟩ := km; simp [hx s'']
+
+/-- `{a_i, a_j} = 0` for the tree variant -/
+theorem tree_car_ann (tol : Rat) (htol : tol * tol ≤ 1 / 4) (n i j : Nat) (hi : i < n) (hj : j < n) (s s' : Nat) :
+    GV.coeff (applyOp .qubit (bkTreeTerm tol (mkTree n) n [(i, 0), (j, 0)] 1) [Spec.C05.enc .tree n s])
+        [Spec.C05.enc .tree n s']
+    + GV.coeff (applyOp .qubit (bkTreeTerm tol (mkTree n) n [(j, 0), (i, 0)] 1) [Spec.C05.enc .tree n s])
+        [Spec.C05.enc .tree n s']
+      = 0 := by
+  rw [tree_term_exact tol htol n _ (by intro f hf; simp at hf; rcases hf with rfl | rfl <;> simp <;> omega) 1 s s',
+    tree_term_exact tol htol n _ (by intro f hf; simp at hf; rcases hf with rfl | rfl <;> simp <;> omega) 1 s s']
+  change den .fermion _ _ _ + den .fermion _ _ _ = _
+  rw [den_cons, den_nil, den_cons, den_nil, add_zero, add_zero, one_mul, one_mul]
+  exact spec_car_ann i j s s'
+
+/-- number operators are diagonal for the tree variant -/
+theorem tree_number_diagonal (tol : Rat) (htol : tol * tol ≤ 1 / 4) (n j : Nat) (hj : j < n) (s s' : Nat) :
+    GV.coeff (applyOp .qubit (bkTreeTerm tol (mkTree n) n [(j, 1), (j, 0)] 1) [Spec.C05.enc .tree n s])
+        [Spec.C05.enc .tree n s']
+      = if s.testBit j then (if s = s' then 1 else 0) else 0 := by
+  rw [tree_term_exact tol htol n _ (by intro f hf; simp at hf; rcases hf with rfl | rfl <;> simp <;> omega) 1 s s']
+  change den .fermion _ _ _ = _
+  rw [den_cons, den_nil, add_zero, one_mul, diag_fermion]
+
+/-- **`bravyi_kitaev` and `bravyi_kitaev_tree` are the same operator up to the relabelling of basis states**:
+`⟨enc_tree s'| bk_tree(A) |enc_tree s⟩ = ⟨enc_bk s'| bk(A) |enc_bk s⟩` for every FermionOperator, both runs exact -/
+theorem tree_equiv_bk (tol : Rat) (htol : tol * tol ≤ 1 / 4) (n : Nat) (A : Model.Op)
+    (hA : ∀ tc ∈ A, ∀ f ∈ tc.1, f.1 < n ∧ f.2 ≤ 1) (hok : bkFermionOk tol n A = true)
+    (hok' : bkTreeFermionOk tol n A = true) (s s' : Nat) :
+    GV.coeff (applyOp .qubit (bkTreeFermion tol n A) [Spec.C05.enc .tree n s]) [Spec.C05.enc .tree n s']
+      = GV.coeff (applyOp .qubit (bkFermion tol n A) [Spec.C05.enc .bk n s]) [Spec.C05.enc .bk n s'] := by
+  rw [tree_exact tol htol n A hA hok' s s', bk_exact tol htol n A hA hok s s']
+
+/-! ### Bravyi-Kitaev superfast (`bksf.py`): the edge operators satisfy the edge algebra, for every graph
+
+`E` is `edge_matrix_indices` as the list of its columns (qubit `e` on edge `e`); `edgeB tol E i` and
+`edgeA tol E i j` are the Models of `edge_operator_b` and `edge_operator_aij`; products are `QubitOperator.__mul__`.
+The relations are stated as equalities of all matrix elements.  `NoLoops`: no column has two equal entries (true for
+the array the library builds from the strict upper triangle of the edge matrix). -/
+
+/-- `B_i B_k = B_k B_i` and `B_i² = 1` — every array `E`, all `i`, `k` -/
+theorem bksf_b_commute (tol : Rat) (htol : tol * tol ≤ 1 / 4) (E : Model.Bksf.Edges) (i k m x : Nat) :
+    GV.coeff (applyOp .qubit (mulOp .qubit (Model.Bksf.edgeB tol E i) (Model.Bksf.edgeB tol E k)) [m]) [x]
+        = GV.coeff (applyOp .qubit (mulOp .qubit (Model.Bksf.edgeB tol E k) (Model.Bksf.edgeB tol E i)) [m]) [x]
+    ∧ GV.coeff (applyOp .qubit (mulOp .qubit (Model.Bksf.edgeB tol E i) (Model.Bksf.edgeB tol E i)) [m]) [x]
+        = if m = x then 1 else 0 :=
+  ⟨bksf_BB tol htol E i k m x, bksf_BB_sq tol htol E i m x⟩
+
+/-- `A_ij B_k = − B_k A_ij` for `k ∈ {i, j}` and `A_ij B_k = B_k A_ij` otherwise — every graph without loops,
+every edge `{i, j}` of it (in either orientation), every vertex `k` -/
+theorem bksf_a_b_relation (tol : Rat) (htol : tol * tol ≤ 1 / 4) (E : Model.Bksf.Edges) (hE : NoLoops E)
+    (i j k : Nat) (A : Model.Op) (hA : Model.Bksf.edgeA tol E i j = some A) (m x : Nat) :
+    GV.coeff (applyOp .qubit (mulOp .qubit A (Model.Bksf.edgeB tol E k)) [m]) [x]
+      = (if k = i ∨ k = j then -1 else 1)
+        * GV.coeff (applyOp .qubit (mulOp .qubit (Model.Bksf.edgeB tol E k) A) [m]) [x] :=
+  bksf_AB tol htol E hE i j k A hA m x
+
+/-- `A_ij² = 1` and `A_ji = − A_ij` -/
+theorem bksf_a_square_antisymmetric (tol : Rat) (htol : tol * tol ≤ 1 / 4) (E : Model.Bksf.Edges) (hE : NoLoops E)
+    (i j : Nat) (A A' : Model.Op) (hA : Model.Bksf.edgeA tol E i j = some A)
+    (hA' : Model.Bksf.edgeA tol E j i = some A') (m x : Nat) :
+    GV.coeff (applyOp .qubit (mulOp .qubit A A) [m]) [x] = (if m = x then 1 else 0)
+    ∧ GV.coeff (applyOp .qubit A' [m]) [x] = -GV.coeff (applyOp .qubit A [m]) [x] :=
+  ⟨bksf_AA_sq tol htol E hE i j A hA m x, bksf_A_antisymm tol htol E hE i j A A' hA hA' m x⟩
+
+/-- `A_ij A_kl = − A_kl A_ij` when the edges `{i,j} ≠ {k,l}` share a vertex, `A_ij A_kl = A_kl A_ij` when they are
+disjoint — the Z-strings chosen by the ordering of the neighbours make exactly this happen, on every graph -/
+theorem bksf_a_a_relation (tol : Rat) (htol : tol * tol ≤ 1 / 4) (E : Model.Bksf.Edges) (hE : NoLoops E)
+    (i j k l : Nat) (A A2 : Model.Op) (hA : Model.Bksf.edgeA tol E i j = some A)
+    (hA2 : Model.Bksf.edgeA tol E k l = some A2) (h1 : ¬ (i = k ∧ j = l)) (h2 : ¬ (i = l ∧ j = k)) (m x : Nat) :
+    GV.coeff (applyOp .qubit (mulOp .qubit A A2) [m]) [x]
+      = (if i = k ∨ i = l ∨ j = k ∨ j = l then -1 else 1)
+        * GV.coeff (applyOp .qubit (mulOp .qubit A2 A) [m]) [x] :=
+  bksf_AA tol htol E hE i j k l A A2 hA hA2 h1 h2 m x
+
 /-! ### non-vacuity -/
 
 example : Generated.eqTolerance * Generated.eqTolerance ≤ 1 / 4 := by
@@ -541,6 +625,17 @@ example :
       decide +kernel
     exact fun p q r s hp hq hr hs => H p hp q hq r hr s hs
 
+/-- hypotheses of the BKSF relations on a concrete graph (a 4-cycle with a chord, mixed orientations): no loops,
+and the edge operators exist -/
+example :
+    let E : Model.Bksf.Edges := [(0, 1), (2, 1), (2, 3), (3, 0), (0, 2)]
+    NoLoops E ∧ (Model.Bksf.edgeA Generated.eqTolerance E 1 2).isSome = true
+      ∧ (Model.Bksf.edgeA Generated.eqTolerance E 3 0).isSome = true := by
+  refine ⟨?_, by decide +kernel, by decide +kernel⟩
+  intro e he
+  have : e = 0 ∨ e = 1 ∨ e = 2 ∨ e = 3 ∨ e = 4 := by simp at he; omega
+  rcases this with rfl | rfl | rfl | rfl | rfl <;> decide
+
 example : ∀ m ∈ [11, 0, 3, 11, 4], m / 2 < 6 := by decide
 
 /-- the exact-regime hypothesis of `tree_exact` on a concrete operator, `n = 6` (tree ≠ Fenwick there) -/
@@ -551,6 +646,9 @@ example : bkTreeFermionOk Generated.eqTolerance 6
 /-! ### statements of C05 that are NOT proved here (covered by correspondence + Spec oracle only; see
 `OPEN_STATEMENTS` in harness/c05.py)
 
+* Bravyi-Kitaev superfast: only the edge operators and their algebra are modelled and proved (`bksf_*`); the edge
+  matrix derived from an InteractionOperator, `_one_body`, `_two_body`, `vacuum_operator` and the assembled
+  Hamiltonian have no Model.
 * isospectrality with Jordan-Wigner / preservation of expectation values as separate statements (they follow from
   `bk_exact` + `bk_enc_injective`: the transformed operator is the Jordan-Wigner one conjugated by the relabelling). -/
 
